@@ -354,6 +354,11 @@ def check(res, tier, replay=None):
                         u = 0 if tool == "ovniemu" else 1
                         cls = [L.model_class(m.model[(s, u)]) for s in range(len(m.tr.streams))]
                         has_region = any(e.mcv in ("OU[", "OU]") for s, evs in m.tr.streams for e in evs)
+                        if tool == "ovnisort":
+                            # ovnisort steps every stream itself: an event-less (inactive) stream makes
+                            # stream_step fail ("stream is inactive"), the player-based tools skip it
+                            cls = ["reject" if len(m.tr.obs(s)) == 8 and c == "accept" else c
+                                   for s, c in enumerate(cls)]
                         if all(c in ("accept", "reject") for c in cls):
                             if "reject" in cls and rc == 0:
                                 found = True
